@@ -79,6 +79,8 @@ func getSwapInReceiverStates() States {
 			Events: Events{
 				Event_ActionFailed:    State_SendCancel,
 				Event_ActionSucceeded: State_SwapInReceiver_SendCoopClose,
+				// The claim invoice turned out to be paid: claim instead.
+				Event_OnClaimInvoicePaid: State_SwapInReceiver_ClaimSwap,
 			},
 		},
 		State_SwapInReceiver_SendCoopClose: {
